@@ -475,10 +475,47 @@ def rule_R2(ctx, R):
     return res
 
 
+def leaf_keyed_guards(ctx, R):
+    """{keyed leaf guard ADT: its leaf lock ADT}: key carriers that own a (non-generic) hold type directly, all of whose
+    construction sites are methods of that leaf lock taking `&self`"""
+    out = {}
+    for c in R.key_carriers:
+        a = ctx.F.adts.get(c)
+        if not a or len(a["variants"]) != 1:
+            continue
+        holds = [fld["ty"]["path"] for fld in a["variants"][0]["fields"] if fld["ty"]["k"] == "adt" and fld["ty"]["path"] in R.holdtypes]
+        if len(holds) != 1:
+            continue
+        h = ctx.F.adts.get(holds[0])
+        hf = h["variants"][0]["fields"][R.holdtypes[holds[0]][0]]["ty"] if h else None
+        lock = hf["ty"]["path"] if hf and hf["k"] == "ref" and hf["ty"]["k"] == "adt" else None
+        if lock is None:
+            continue
+        ok = True
+        nsites = 0
+        for f in ctx.F.fns:
+            m = f.get("mir")
+            if not m:
+                continue
+            for b in m["blocks"]:
+                for st in b["stmts"]:
+                    if st["k"] == "assign" and st["rv"]["k"] == "aggregate" and st["rv"].get("agg") == "adt" and st["rv"].get("path") == c:
+                        nsites += 1
+                        top = ctx.F.top_fn(f)
+                        imp = ctx.F.impl_of_fn(top)
+                        own = imp and imp["self_ty"]["k"] == "adt" and imp["self_ty"]["path"] in (lock, c)
+                        if not own:
+                            ok = False
+        if ok and nsites:
+            out[c] = lock
+    return out
+
+
 def rule_O3(ctx, R):
     res = RuleResult("O3", "guards do not give back their lock: no safe function turns a hold, guard or protected-data view into a "
                            "reference to the lock it belongs to (members of an owned collection would become lockable on their own)")
     guardish = set(R.holdtypes) | R.key_carriers | R.hold_owners | {"poisonable::PoisonRef", "poisonable::PoisonError"}
+    leafk = leaf_keyed_guards(ctx, R)
     n = 0
     for f in ctx.F.fns:
         if "inputs" not in f or f.get("unsafe") or not f.get("reachable"):
@@ -490,6 +527,13 @@ def rule_O3(ctx, R):
         n += 1
         out = f["output"]
         gives = [x for x in ty_walk(out) if x["k"] in ("ref", "ptr") and x["ty"]["k"] == "adt" and x["ty"]["path"] in R.lock_adts]
+        if gives and all(any(x["k"] == "adt" and x["path"] in leafk for x in ty_walk(t)) and
+                         not any(x["k"] == "adt" and x["path"] in (guardish - set(leafk)) - set(R.holdtypes) for x in ty_walk(t)) for t in takes) and \
+                all(g["ty"]["path"] in [leafk[x["path"]] for t in takes for x in ty_walk(t) if x["k"] == "adt" and x["path"] in leafk] for g in gives):
+            # a *keyed* guard of a leaf lock (`MutexGuard`) is only ever made by that lock's own `lock(&'a self, key)`: the caller
+            # already had this `&'a Mutex`; collections hand out the keyless hold types, never these
+            res.ok(f["path"] + " (keyed leaf guard: the caller's own reference)")
+            continue
         if gives:
             res.bad(Violation("O3", f["path"], "lock-from-guard", "safe function returns %s from a guard (%s): the lock behind a guard "
                               "becomes reachable on its own, e.g. a member of an OwnedLockCollection, which is then locked outside the "
@@ -532,6 +576,8 @@ def rule_A6(ctx, R):
                 regs.append(x["region"])
             if x["k"] == "adt":
                 regs += [a["r"] for a in x.get("args", []) if a["k"] == "region"]
+            if x["k"] == "ref" and x["ty"]["k"] == "adt" and x["ty"]["path"] in R.lock_adts:
+                continue      # a reference to a lock or collection is not protected data (what it may reach is O3's question)
             for r in regs:
                 if r["k"] == "static" or (r["k"] == "early" and r.get("name") in own):
                     bad = "returns %s with lifetime %s" % (f["output"]["s"], r.get("name") or "'static")
